@@ -21,7 +21,7 @@
 (* be given up.  The destination must carry the source's value; the source    *)
 (* afterwards is left unconstrained (Moved: not read until it is assigned,    *)
 (* renewed or destroyed).                                                     *)
-EXTENDS Integers, Sequences, FiniteSets, TLC
+EXTENDS Integers, Sequences, FiniteSets, TLC, FarGap
 
 CONSTANTS Cells,      \* 1..NC
           MaxFresh    \* bound on values handed out (model checking / generation)
@@ -93,6 +93,13 @@ Destroy(s) ==
   /\ CanDestroy(s)
   /\ n' = n /\ cell' = [cell EXCEPT ![s] = Empty]
   /\ last' = [a |-> "Destroy", arg |-> [s |-> s], cls |-> "", exp |-> [newmax |-> FALSE] @@ Proj(cell')]
+
+\* far stamps (FarGap.tla): values are handed out elsewhere, far more than 2^31 of them; no cell changes, the
+\* ordinals (and so every comparison between cells, before and after) stay what they are.  Not part of Next.
+Advance(cls) ==
+  /\ cls \in FarClasses
+  /\ n' = n /\ cell' = cell
+  /\ last' = [a |-> "Advance", arg |-> [cls |-> cls, dist |-> FarDist(cls)], cls |-> cls, exp |-> [newmax |-> FALSE] @@ Proj(cell)]
 
 Next ==
   \/ \E s \in Cells : Create(s) \/ Renew(s) \/ Destroy(s)
